@@ -188,3 +188,41 @@ fn c10_read_skip_nohash_dblend() {
 fn c10_read_full_hash() {
 	read_case::<6>(false, true, false);
 }
+
+// @verif property=C07,C06 tier=quick mem=24 timeout=3000
+// @encodes peppi::io::slippi::read tail handling: a file cut inside the `metadata` key after a complete raw element
+// @symbolic 2700 Game Start block bytes, Game End method, how many bytes of the metadata key survive (0..=9)
+// @bound one port-free 0.1 file without events between Game Start and Game End, followed by a truncated `U\x08metadata{`
+// @assume file skeleton is concrete; see build()
+// @stub xxhash_rust::xxh3::Xxh3::update = recorder
+// @stub alloc::fmt::format = returns an empty String
+// @stub std::hash::RandomState::new = fixed keys
+// @cbmc --max-field-sensitivity-array-size 1024
+#[kani::proof]
+#[kani::unwind(12)]
+#[kani::stub(alloc::fmt::format, format_stub)]
+#[kani::stub(std::hash::RandomState::new, random_state_stub)]
+#[kani::stub(xxhash_rust::xxh3::Xxh3::update, update_check)]
+fn c07_read_cut_in_metadata_key() {
+	let mut f: [u8; 400] = kani::any();
+	let total = build::<0>(&mut f, true, false);
+	let m = f[GAP + 1];
+	kani::assume(m == 0 || m == 1 || m == 2 || m == 3 || m == 7);
+	// replace the closing brace by the start of a metadata element, then cut the file inside it
+	let key: [u8; 11] = [0x55, 0x08, 0x6d, 0x65, 0x74, 0x61, 0x64, 0x61, 0x74, 0x61, 0x7b];
+	let at = total - 1;
+	let mut i = 0;
+	while i < 11 {
+		f[at + i] = key[i];
+		i += 1;
+	}
+	let keep: usize = kani::any();
+	kani::assume(keep >= 1 && keep <= 10);
+	let opts = Opts { skip_frames: kani::any(), compute_hash: false, debug: None };
+	let res = read(SliceRS { data: &f[..at + keep], pos: 0 }, Some(&opts));
+	// the raw element is complete, but the file is not: never a game
+	assert!(res.is_err());
+	kani::cover!(keep == 10, "only the opening brace of the metadata map is missing");
+	kani::cover!(keep == 1, "cut right after the U");
+	forget(res);
+}
